@@ -391,6 +391,43 @@ def render_stream(r):
     return text, exp
 
 
+def end_of_input_cases():
+    """every indicator as the very last character of the input (no line break after it): (text, expected events)"""
+    N = ('SC', 0, None, 'P', '~')
+    def S(t):
+        return ('SC', 0, None, 'P', t)
+    def doc(body, explicit=False):
+        return [('SS',), ('DS', explicit)] + body + [('DE',), ('SE',)]
+    MP, MPE, SQ, SQE = ('MP', 0, None), ('MPE',), ('SQ', 0, None), ('SQE',)
+    cases = [
+        ('?', doc([MP, N, N, MPE])),
+        ('---\n?', doc([MP, N, N, MPE], True)),
+        ('- ?', doc([SQ, MP, N, N, MPE, SQE])),
+        ('a:\n  ?', doc([MP, S('a'), MP, N, N, MPE, MPE])),
+        ('? a\n?', doc([MP, S('a'), N, N, N, MPE])),
+        ('? a\n:', doc([MP, S('a'), N, MPE])),
+        ('-', doc([SQ, N, SQE])),
+        ('- a\n-', doc([SQ, S('a'), N, SQE])),
+        ('a:', doc([MP, S('a'), N, MPE])),
+        ('a: b\nc:', doc([MP, S('a'), S('b'), S('c'), N, MPE])),
+        (':', doc([MP, N, N, MPE])),
+        ('- - ?', doc([SQ, SQ, MP, N, N, MPE, SQE, SQE])),
+        ('k:\n-', doc([MP, S('k'), SQ, N, SQE, MPE])),
+        ('? - a\n: -', doc([MP, SQ, S('a'), SQE, SQ, N, SQE, MPE])),
+        ('[a, b]', doc([SQ, S('a'), S('b'), SQE])),
+        ('{a: }', doc([MP, S('a'), N, MPE])),
+        ('"q"', doc([('SC', 0, None, 'D', 'q')])),
+        ("'s'", doc([('SC', 0, None, 'S', 's')])),
+        ('&x', doc([('SC', 1, None, 'P', '')])),
+        ('!t', doc([('SC', 0, '!t', 'P', '')])),
+        ('- &x', doc([SQ, ('SC', 1, None, 'P', ''), SQE])),
+        ('a: !t', doc([MP, S('a'), ('SC', 0, '!t', 'P', ''), MPE])),
+        ('--- a\n...', doc([S('a')], True)),
+        ('a\n---', [('SS',), ('DS', False), S('a'), ('DE',), ('DS', True), N, ('DE',), ('SE',)]),
+    ]
+    return cases
+
+
 def nested_layout_cases():
     """systematic layouts of a block collection nested on the next line under each kind of parent, at
     every small indentation step, with every kind of first key / first item: (text, expected events)"""
